@@ -14,7 +14,7 @@
 (* Family: 2 keys; 3 generations (an older duplicate g1 and an expired     *)
 (* newest generation g2 of key 1, a two-block generation g3 of key 2 that  *)
 (* needs three blocks in v3 when it comes from v1); every ordered          *)
-(* selection of their extents; up to two one-block fillers (zero, legacy   *)
+(* selection of their extents; up to MaxFill one-block fillers (zero, legacy   *)
 (* marker LM, pending marker, torn head) in the gaps; journal never        *)
 (* written / CLEAR / ACTIVE over one extent (half written, completely      *)
 (* written, or only its second block: a record reaching into the           *)
@@ -22,7 +22,8 @@
 (***************************************************************************)
 EXTENDS Migration
 
-CONSTANTS Mut          \* "none" or a seeded fault of MigrateX / of the publication step
+CONSTANTS Mut,         \* "none" or a seeded fault of MigrateX / of the publication step
+          MaxFill      \* at most this many non-empty fillers per source image
 
 VARIABLES fmt, src0, allow, pre, pc, fsSrc, fsDst, fsTmp, res,
           appeared     \* history: a foreign destination exists
@@ -45,7 +46,7 @@ Arr == {<<>>} \cup {<<a>> : a \in 1 .. 3}
 Distinct(s) == \A i, j \in 1 .. Len(s) : i # j => s[i] # s[j]
 Arrs == {a \in Arr : Distinct(a)}
 \* fillers: one per gap (before, between, after), at most two of them non-empty
-Fills(a) == {fs \in [1 .. (Len(a) + 1) -> Fill] : Cardinality({i \in DOMAIN fs : fs[i] # <<>>}) <= 2}
+Fills(a) == {fs \in [1 .. (Len(a) + 1) -> Fill] : Cardinality({i \in DOMAIN fs : fs[i] # <<>>}) <= MaxFill}
 
 RECURSIVE Cat(_, _, _, _)
 Cat(f, a, fs, i) == IF i > Len(a) THEN fs[i] ELSE fs[i] \o Ext(f, a[i]) \o Cat(f, a, fs, i + 1)
